@@ -14,6 +14,7 @@
 #include "shared_memory.h"
 #include "interpreter.h"
 #include "apbp.cpp"
+#include "test.h"
 #pragma GCC diagnostic ignored "-Winvalid-offsetof"
 using namespace Teakra;
 template <class T> struct Info { static constexpr size_t es = sizeof(T), n = 1; };
@@ -41,6 +42,12 @@ int main() {
     F(ip) F(ipv) F(im) F(imv) F(ic) F(nimc) F(ie) F(ou) F(iu) F(ext) F(mod0_unk_const)
     BLOB(shadow_registers) BLOB(shadow_swap_registers)
     BLOB(shadow_swap_ar0) BLOB(shadow_swap_ar1) BLOB(shadow_swap_arp0) BLOB(shadow_swap_arp1) BLOB(shadow_swap_arp2) BLOB(shadow_swap_arp3)
+    END
+    BEGIN(State)
+    F(a) F(b) F(p) F(r) F(x) F(y) F(stepi0) F(stepj0) F(mixp) F(sv) F(repc) F(lc) F(cfgi) F(cfgj) F(stt0) F(stt1) F(stt2) F(mod0) F(mod1) F(mod2) F(ar) F(arp) F(test_space_x) F(test_space_y)
+    END
+    BEGIN(TestCase)
+    RAW(before) RAW(after) F(opcode) F(expand)
     END
     BEGIN(Timer)
     F(update_mmio) F(pause) F(count_mode) F(scale) F(start_high) F(start_low) F(counter) F(counter_high) F(counter_low) RAW(interrupt_handler)
